@@ -6,7 +6,7 @@ LABELS = ('zadd', 'zrem', 'zrange', 'zrank')
 ks.family_check(
     "C12", tier,
     b1_instances=[('MC_Zset', 'MC_Zset.cfg'), ('MC_Zset', 'MC_ZsetDeep.cfg')] if tier == "quick" else [('MC_Zset', 'MC_Zset.cfg'), ('MC_Zset', 'MC_ZsetDeep_thorough.cfg')],
-    b2_families=['zset'],
+    b2_families=['zset', 'zsetdeep'],
     level_text="", assumptions=['reference semantics = Redis command reference as transcribed in spec/KsZset.tla', 'order among equal scores is left open (zwin patterns, rank ranges)', 'scores on the exactly-representable decimal subset plus +-inf', 'structural invariants (BST order, |balance|<=1, stored heights, len, dict<->names) are evaluated in harness/canon/state.go on memdb.VerifDump after every B1 edge'],
     b2_progs=400 if tier == "quick" else 6000,
     label_filter=lambda b: b.split(".")[0] in LABELS)
